@@ -38,14 +38,14 @@ impl Tier {
     }
 }
 
-#[derive(Clone, Debug)]
+#[derive(Clone, Debug, Serialize, Deserialize)]
 pub enum Verdict {
     Pass,
     /// `kind` is the signature used for known-finding matching; `detail` is free text.
     Violation { kind: String, detail: String },
 }
 
-#[derive(Clone, Debug)]
+#[derive(Clone, Debug, Serialize, Deserialize)]
 pub struct Outcome {
     pub verdict: Verdict,
     pub nontrivial: bool,
@@ -100,6 +100,11 @@ pub trait Stage: Sync + Send + 'static {
     }
     fn max_shards(&self) -> usize {
         16
+    }
+    /// Run cases in a supervised child process (survives aborts, stack overflows, allocation
+    /// failures of the code under test; they become `worker-death` outcomes).
+    fn isolate(&self) -> bool {
+        true
     }
     /// Extra key/values to put into the evidence (e.g. exhaustive sub-space notes).
     fn extra(&self) -> Value {
@@ -213,6 +218,8 @@ pub trait DynStage: Sync + Send {
     fn name(&self) -> &'static str;
     fn drive(&self, prop: &str, tier: Tier, seed: u64, findings: &Findings) -> StageReport;
     fn replay_value(&self, case: &Value) -> Result<Outcome, String>;
+    /// like replay_value, but in a supervised worker when the stage asks for isolation
+    fn exec_value(&self, prop: &str, case: &Value, worker: &mut Option<Worker>) -> Result<Outcome, String>;
 }
 
 static WATCH_SLOTS: [AtomicU64; 64] = {
@@ -241,10 +248,126 @@ fn start_watchdog(base: Instant) {
                     "INCONCLUSIVE: watchdog: a case on shard {i} exceeded {} s wall clock (harness trouble, not a verdict)",
                     limit / 1000
                 );
+                kill_all_workers();
                 std::process::exit(2);
             }
         }
     });
+}
+
+// ---------------------------------------------------------------------------------------------
+// Supervised workers
+
+pub struct Worker {
+    child: std::process::Child,
+    stdin: std::process::ChildStdin,
+    stdout: std::io::BufReader<std::process::ChildStdout>,
+}
+
+static WORKER_PIDS: Mutex<Vec<u32>> = Mutex::new(Vec::new());
+
+fn kill_all_workers() {
+    for pid in WORKER_PIDS.lock().unwrap().iter() {
+        let _ = std::process::Command::new("kill").arg("-9").arg(pid.to_string()).status();
+    }
+}
+
+impl Worker {
+    fn spawn(prop: &str, stage: &str) -> Worker {
+        use std::process::{Command, Stdio};
+        let exe = std::env::current_exe().expect("current_exe");
+        // address-space limit so that runaway allocation becomes an abort of the worker, not an
+        // OOM kill of the whole check
+        let mut child = Command::new("sh")
+            .arg("-c")
+            .arg("ulimit -v 12582912 2>/dev/null; exec \"$0\" \"$@\"")
+            .arg(exe)
+            .args(["worker", prop, stage])
+            .stdin(Stdio::piped())
+            .stdout(Stdio::piped())
+            .stderr(Stdio::null())
+            .spawn()
+            .expect("spawn worker");
+        WORKER_PIDS.lock().unwrap().push(child.id());
+        let stdin = child.stdin.take().unwrap();
+        let stdout = std::io::BufReader::new(child.stdout.take().unwrap());
+        Worker { child, stdin, stdout }
+    }
+
+    /// Ok(outcome) or Err(description of how the worker died)
+    fn run(&mut self, case_json: &str) -> Result<Outcome, String> {
+        use std::io::{BufRead, Write};
+        let sent = self.stdin.write_all(case_json.as_bytes()).and_then(|_| self.stdin.write_all(b"\n")).and_then(|_| self.stdin.flush());
+        let mut line = String::new();
+        let got = if sent.is_ok() { self.stdout.read_line(&mut line).unwrap_or(0) } else { 0 };
+        if got == 0 {
+            use std::os::unix::process::ExitStatusExt;
+            let st = self.child.wait();
+            let how = match st {
+                Ok(s) => match (s.signal(), s.code()) {
+                    (Some(sig), _) => format!("killed by signal {sig}"),
+                    (_, Some(c)) => format!("exited with status {c}"),
+                    _ => "died".to_string(),
+                },
+                Err(e) => format!("wait failed: {e}"),
+            };
+            return Err(how);
+        }
+        serde_json::from_str::<Outcome>(line.trim()).map_err(|e| format!("unreadable worker answer: {e}"))
+    }
+}
+
+impl Drop for Worker {
+    fn drop(&mut self) {
+        let _ = self.child.kill();
+        let _ = self.child.wait();
+        let id = self.child.id();
+        WORKER_PIDS.lock().unwrap().retain(|p| *p != id);
+    }
+}
+
+/// Child-process side: read one JSON case per line, answer one JSON outcome per line.
+pub fn worker_main(stage: &dyn DynStage) -> i32 {
+    use std::io::{BufRead, Write};
+    let stdin = std::io::stdin();
+    let stdout = std::io::stdout();
+    for line in stdin.lock().lines() {
+        let line = match line {
+            Ok(l) => l,
+            Err(_) => break,
+        };
+        if line.trim().is_empty() {
+            continue;
+        }
+        let out = match serde_json::from_str::<Value>(&line) {
+            Ok(v) => match stage.replay_value(&v) {
+                Ok(o) => o,
+                Err(e) => Outcome::violation("harness-bad-case", e),
+            },
+            Err(e) => Outcome::violation("harness-bad-case", e.to_string()),
+        };
+        let mut o = stdout.lock();
+        let _ = writeln!(o, "{}", serde_json::to_string(&out).unwrap());
+        let _ = o.flush();
+    }
+    0
+}
+
+fn run_case<S: Stage>(stage: &S, prop: &str, case: &S::Case, worker: &mut Option<Worker>) -> Outcome {
+    if !stage.isolate() {
+        return run_guarded(stage, case);
+    }
+    let js = serde_json::to_string(case).unwrap_or_default();
+    if worker.is_none() {
+        *worker = Some(Worker::spawn(prop, Stage::name(stage)));
+    }
+    match worker.as_mut().unwrap().run(&js) {
+        Ok(o) => o,
+        Err(how) => {
+            *worker = None;
+            Outcome::violation("worker-death", format!("the process executing the case {how} (crash, abort, stack overflow or allocation failure in the code under test)"))
+        }
+    }
 }
 
 fn run_guarded<S: Stage>(stage: &S, case: &S::Case) -> Outcome {
@@ -271,6 +394,16 @@ impl<S: Stage> DynStage for S {
     fn replay_value(&self, case: &Value) -> Result<Outcome, String> {
         let c: S::Case = serde_json::from_value(case.clone()).map_err(|e| e.to_string())?;
         Ok(run_guarded(self, &c))
+    }
+
+    fn exec_value(&self, prop: &str, case: &Value, worker: &mut Option<Worker>) -> Result<Outcome, String> {
+        let c: S::Case = serde_json::from_value(case.clone()).map_err(|e| e.to_string())?;
+        WATCH_LIMIT.store(self.watchdog_secs(Tier::Thorough), Ordering::Relaxed);
+        start_watchdog(base_instant());
+        WATCH_SLOTS[62].store(now_ms(base_instant()), Ordering::Relaxed);
+        let o = run_case(self, prop, &c, worker);
+        WATCH_SLOTS[62].store(0, Ordering::Relaxed);
+        Ok(o)
     }
 
     fn drive(&self, prop: &str, tier: Tier, seed: u64, findings: &Findings) -> StageReport {
@@ -318,15 +451,27 @@ impl<S: Stage> DynStage for S {
                             &shard_seed(seed, prop, stage_name, shard),
                         );
                         let mut runner = TestRunner::new_with_rng(cfg, rng);
+                        let worker: std::cell::RefCell<Option<Worker>> = std::cell::RefCell::new(None);
                         let failed = std::cell::Cell::new(false);
+                        let deaths = std::cell::Cell::new(0u32);
+                        let failed_at: std::cell::Cell<Option<Instant>> = std::cell::Cell::new(None);
+                        let shrink_budget = std::time::Duration::from_secs(tier.pick(90, 600));
                         let last: std::cell::RefCell<Option<(String, String)>> =
                             std::cell::RefCell::new(None);
                         let res = runner.run(&strategy, |case| {
                             if stop.load(Ordering::Relaxed) && !failed.get() {
                                 return Ok(());
                             }
+                            // bound the shrinking work: after many worker deaths or a long time
+                            // shrinking, treat further candidates as passing (keeps the last failing one)
+                            if failed.get()
+                                && (deaths.get() > 40
+                                    || failed_at.get().map(|t| t.elapsed() > shrink_budget).unwrap_or(false))
+                            {
+                                return Ok(());
+                            }
                             WATCH_SLOTS[shard].store(now_ms(base_instant()), Ordering::Relaxed);
-                            let out = run_guarded(me, &case);
+                            let out = run_case(me, prop, &case, &mut worker.borrow_mut());
                             WATCH_SLOTS[shard].store(0, Ordering::Relaxed);
                             let mut known: Option<String> = None;
                             let mut viol: Option<(String, String)> = None;
@@ -355,6 +500,12 @@ impl<S: Stage> DynStage for S {
                             }
                             match viol {
                                 Some((kind, detail)) => {
+                                    if kind == "worker-death" {
+                                        deaths.set(deaths.get() + 1);
+                                    }
+                                    if !failed.get() {
+                                        failed_at.set(Some(Instant::now()));
+                                    }
                                     failed.set(true);
                                     *last.borrow_mut() = Some((kind.clone(), detail.clone()));
                                     Err(TestCaseError::fail(format!("{kind}: {detail}")))
@@ -369,7 +520,7 @@ impl<S: Stage> DynStage for S {
                                 stop.store(true, Ordering::Relaxed);
                                 // Re-run the minimal case to get its own kind/detail.
                                 WATCH_SLOTS[shard].store(now_ms(base_instant()), Ordering::Relaxed);
-                                let out = run_guarded(me, &case);
+                                let out = run_case(me, prop, &case, &mut worker.borrow_mut());
                                 WATCH_SLOTS[shard].store(0, Ordering::Relaxed);
                                 let (kind, detail) = match out.verdict {
                                     Verdict::Violation { kind, detail } => (kind, detail),
@@ -413,9 +564,10 @@ impl<S: Stage> DynStage for S {
             let mut confirmed = true;
             let mut k = kind.clone();
             let mut d = detail.clone();
+            let mut cw: Option<Worker> = None;
             for _ in 0..3 {
                 WATCH_SLOTS[63].store(now_ms(base_instant()), Ordering::Relaxed);
-                let o = run_guarded(self, &case);
+                let o = run_case(self, prop, &case, &mut cw);
                 WATCH_SLOTS[63].store(0, Ordering::Relaxed);
                 match o.verdict {
                     Verdict::Violation { kind, detail }
@@ -505,8 +657,9 @@ fn replay_file(
         .find(|s| s.name() == doc.stage)
         .ok_or_else(|| format!("{}: unknown stage {}", path.display(), doc.stage))?;
     let _ = doc.kind;
+    let mut worker: Option<Worker> = None;
     for _ in 0..3 {
-        let o = stage.replay_value(&doc.case)?;
+        let o = stage.exec_value(spec.id, &doc.case, &mut worker)?;
         if let Verdict::Violation { kind, detail } = o.verdict {
             if known_match(findings, spec.id, &doc.stage, &kind).is_some() {
                 *known_out.entry(format!("{}/{}", doc.stage, kind)).or_insert(0) += 1;
